@@ -24,7 +24,7 @@ from e2e import LOOP
 
 def payload_for(tag, n):
     """connection-tagged deterministic bytes: a 24-byte tag, then a keyed stream"""
-    head = ("<%s>" % tag).encode().ljust(24, b".")[:24]
+    head = ("<%s>" % hashlib.sha256(tag.encode()).hexdigest()[:22]).encode()        # 24 bytes, unique per tag
     if n <= 24:
         return head[:n]
     seed = hashlib.sha256(tag.encode()).digest()
